@@ -537,6 +537,7 @@ dbus_bool_t _dbus_credentials_include (DBusCredentials *credentials, DBusCredent
     default: PRE (0, "_dbus_credentials_include: known credential type"); return FALSE;
     }
 }
+dbus_pid_t _dbus_credentials_get_pid (DBusCredentials *credentials) { PRE (CRED_LIVE (credentials), "_dbus_credentials_get_pid"); return credentials->pid; }
 dbus_uid_t _dbus_credentials_get_unix_uid (DBusCredentials *credentials) { PRE (CRED_LIVE (credentials), "_dbus_credentials_get_unix_uid"); return credentials->unix_uid; }
 /* "Adds the credentials corresponding to the given username. Used among other purposes to parses a
  *  desired identity provided during authentication" — spec: "An authorization identity consisting entirely
